@@ -491,6 +491,123 @@ static void runEnvironment(Toks& t, Out& o)
     gNX = 0;
 }
 
+// ---------------------------------------------------------------------------------------------- warning mode
+// WARNING mode (first token 4):  4 <pre> <c0> <g> wop*   wop ::= :a n | :d k | :f j n | :p   (coq/C18_ModelW.v)
+//   A real cache behind its SimpleStringCacheAllocator over the recording allocator; the CURRENT TEST's output (UtestShell::
+//   currentTest_ / testResult_ set as the runner does) is a TestOutput whose printBuffer does what StringBufferTestOutput's
+//   `output += text` does on the string allocator -- request a buffer g bytes larger, release the old one, make the new one
+//   current -- with sizes fixed by the scenario instead of the wording of the text, on the cache's adaptor.  pre = 1: the
+//   output's first buffer (c0 bytes) is not one of the cache (allocated before it came); pre = 0: requested from the cache.
+//   The strings the warning builds for itself are served by the default string allocator (not in the books).
+//   One :i item per call made on the cache, in the order the calls BEGIN (the print is the last thing a release does:
+//   the item of the enclosing call is written when the output is entered from inside it); :f j n releases foreign buffer j,
+//   :d k releases the k-th :a with its size, :p prints through UtestShell::getCurrent()->print.  At the end the output gives
+//   its buffer back if it is the cache's, clearAll, destruction.  Last: :x <deepest nesting of printBuffer> <entries of it>.
+//   At nesting depth 3 the scenario is abandoned (unbounded recursion) and reported as it stands.
+struct WarnAbort {};
+static SimpleStringCacheAllocator* gWWrap; static Out* gWOut;
+static char* gWCur; static size_t gWCurSize, gWGrow;
+static int gWDepth, gWMaxDepth, gWPrints; static bool gWInCall, gWCallEmitted;
+static char gWForeignOut[2048];
+static char* wAlloc(size_t n)
+{
+    bool savedIn = gWInCall, savedEm = gWCallEmitted;
+    gWInCall = true; gWCallEmitted = false;
+    char* p = gWWrap->alloc_memory(n, __FILE__, __LINE__);
+    unsigned long long id, off;
+    if (p && findBlock(p, id, off) && !gB[id].freed && n > 0) { memset(p, 'a', n - 1); p[n - 1] = 0; }
+    if (!gWCallEmitted) emit(*gWOut, true, p);
+    else if (gNE) emit(*gWOut, true, p);                 // something happened after the print: an item of its own
+    gWInCall = savedIn; gWCallEmitted = savedEm;
+    return p;
+}
+static void wFree(char* p, size_t n)
+{
+    bool savedIn = gWInCall, savedEm = gWCallEmitted;
+    gWInCall = true; gWCallEmitted = false;
+    gWWrap->free_memory(p, n, __FILE__, __LINE__);
+    if (!gWCallEmitted) emit(*gWOut, false, 0);
+    else if (gNE) emit(*gWOut, false, 0);
+    gWInCall = savedIn; gWCallEmitted = savedEm;
+}
+class GrowingOutput : public TestOutput
+{
+public:
+    void printBuffer(const char*) CPPUTEST_OVERRIDE
+    {
+        if (gWInCall && !gWCallEmitted) { gPrinted = true; emit(*gWOut, false, 0); gWCallEmitted = true; }   // the call that prints ends here
+        gWDepth++; gWPrints++;
+        if (gWDepth > gWMaxDepth) gWMaxDepth = gWDepth;
+        if (gWDepth >= 3) throw WarnAbort();
+        size_t newSize = gWCurSize + gWGrow;
+        char* fresh = wAlloc(newSize);
+        wFree(gWCur, gWCurSize);                         // SimpleString::deallocateInternalBuffer: the member still points to the old buffer
+        gWCur = fresh; gWCurSize = newSize;              // setInternalBufferTo
+        gWDepth--;
+    }
+    void flush() CPPUTEST_OVERRIDE {}
+};
+static void runWarn(Toks& t, Out& o, RecAllocator& rec, void* cacheMem)
+{
+    bool pre = t.u() != 0; size_t c0 = (size_t)t.u(); gWGrow = (size_t)t.u();
+    gWOut = &o; gWDepth = gWMaxDepth = gWPrints = 0; gWInCall = gWCallEmitted = false;
+    void* (*savedMalloc)(size_t) = PlatformSpecificMalloc;
+    PlatformSpecificMalloc = hookMalloc;
+    SimpleStringInternalCache* cache = new (cacheMem) SimpleStringInternalCache;
+    PlatformSpecificMalloc = savedMalloc;
+    emit(o, false, 0);
+    gWWrap = new SimpleStringCacheAllocator(*cache, &rec);
+    gNE = 0;
+    static GrowingOutput out;
+    TestResult result(out);
+    UtestShell shell("harness", "warning", __FILE__, __LINE__);
+    TestResult* savedResult = UtestShell::testResult_; UtestShell* savedTest = UtestShell::currentTest_;
+    UtestShell::testResult_ = &result; UtestShell::currentTest_ = &shell;
+    memset(gWForeignOut, 'o', sizeof gWForeignOut - 1);
+    std::vector<char*> ptrs; std::vector<size_t> sizes;
+    try {
+        if (pre) { gWCur = gWForeignOut; gWCurSize = c0; } else { gWCur = wAlloc(c0); gWCurSize = c0; }
+        while (!t.end()) {
+            std::string k = t.sym();
+            if (k == "a") { size_t n = (size_t)t.u(); ptrs.push_back(wAlloc(n)); sizes.push_back(n); }
+            else if (k == "d") {
+                size_t idx = (size_t)t.u();
+                if (idx >= ptrs.size()) { fprintf(stderr, "harness: release of an alloc that has not happened\n"); exit(3); }
+                wFree(ptrs[idx], sizes[idx]);
+            }
+            else if (k == "f") { size_t j = (size_t)t.u(); size_t n = (size_t)t.u(); wFree(gForeign[j % 8], n); }
+            else if (k == "p") UtestShell::getCurrent()->print("the test prints", __FILE__, __LINE__);
+            else { fprintf(stderr, "harness: bad op %s\n", k.c_str()); exit(3); }
+        }
+        if (gWCur != gWForeignOut) wFree(gWCur, gWCurSize);
+        gWInCall = true; gWCallEmitted = false;
+        cache->clearAllIncludingCurrentlyUsedMemory();
+        if (!gWCallEmitted || gNE) emit(o, false, 0);
+        gWInCall = false;
+        UtestShell::testResult_ = savedResult; UtestShell::currentTest_ = savedTest;
+        void (*savedFree)(void*) = PlatformSpecificFree;
+        delete gWWrap;
+        gNE = 0;
+        PlatformSpecificFree = hookFree;
+        cache->~SimpleStringInternalCache();
+        PlatformSpecificFree = savedFree;
+        emit(o, false, 0);
+    }
+    catch (const WarnAbort&) {
+        while (!t.end()) t.sym();                        // (tokens of the abandoned rest)
+        UtestShell::testResult_ = savedResult; UtestShell::currentTest_ = savedTest;
+        gNE = 0; gPrinted = false;
+        cache->clearAllIncludingCurrentlyUsedMemory();
+        delete gWWrap;
+        void (*savedFree)(void*) = PlatformSpecificFree;
+        PlatformSpecificFree = hookFree;
+        cache->~SimpleStringInternalCache();
+        PlatformSpecificFree = savedFree;
+        gNE = 0; gPrinted = false;
+    }
+    o << ":x" << hx((unsigned long long)gWMaxDepth) << hx((unsigned long long)gWPrints);
+}
+
 int main()
 {
     Toks t; Out o;
@@ -503,6 +620,13 @@ int main()
         int via = t.n();
         gNE = 0; gPrinted = false;
         PlatformSpecificFPuts = hookFPuts; PlatformSpecificFlush = hookFlush;
+        if (via == 4) {
+            runWarn(t, o, rec, cacheMem);
+            PlatformSpecificFPuts = savedFPuts; PlatformSpecificFlush = savedFlush;
+            recReset();
+            o.flush();
+            continue;
+        }
         if (via == 3) {
             runEnvironment(t, o);
             PlatformSpecificFPuts = savedFPuts; PlatformSpecificFlush = savedFlush;
